@@ -415,7 +415,7 @@ PROPS = {
         "lean_modules": ["AvroProofs.C05", "AvroProofs.C06"],
         "theorems": ["Avro.C05.safeLen_iff", "Avro.C05.safeCollectionLen_iff", "Avro.C05.allocBytes_le", "Avro.C05.allocFixed_le",
                      "Avro.C05.allocArrayBlock_le", "Avro.C05.allocMapBlock_le", "Avro.C05.allocBlockBuf_le", "Avro.C05.blockCount_le",
-                     "Avro.C05.decodeVar_consumes_le_10", "Avro.C06.decode_conforms"],
+                     "Avro.C05.decodeVar_consumes_le_10", "Avro.C06.decode_conforms", "Avro.C05.array_items_bounded", "Avro.C05.map_entries_bounded"],
         "partial": [
             {"theorem": "per-site allocation bounds (Avro.C05.alloc*_le)",
              "excluded_by": "the theorems bound the size REQUESTED at each guarded site of the model; panics, aborts, hangs, what the "
@@ -534,7 +534,7 @@ PROPS = {
     },
     "C02": {
         "lean_modules": ["AvroProofs.C02"],
-        "theorems": ["Avro.C02.long_eq_spec", "Avro.C02.encode_sound", "Avro.C02.decode_complete"],
+        "theorems": ["Avro.C02.long_eq_spec", "Avro.C02.encode_sound", "Avro.C02.decode_complete", "Avro.C02.varint_any_digits", "Avro.C02.padded_long_read"],
         "harness": c02_runs,
         "projection": "okerr",
         "nontrivial": complex_line,
@@ -543,7 +543,7 @@ PROPS = {
                 "arrays/maps, negative counts with byte sizes) through the real decoder and the model decoder; plus the byte-exact encode rows of C01",
         "trusted_base": DATUM_TB + ["the harness's reference codec (refcodec.rs) is the 'independent implementation' of the property's statement"],
         "partial": [{"theorem": "Avro.C02.encode_sound / decode_complete",
-                     "excluded_by": "non-canonical (zero-padded) varints are not part of SpecEnc"}],
+                     "excluded_by": "non-canonical (zero-padded) varints are not part of SpecEnc (so not of decode_complete); that the decoder reads them to the same number is proved separately for every digit string of up to ten bytes (varint_any_digits, padded_long_read)"}],
         "assumptions": [],
     },
     "C04": {
